@@ -508,6 +508,72 @@ Theorem t1_find_smallest_unit_odd_part : forall fuel divs u,
 Proof. exact PV.Proofs.C12_t1.t1_find_smallest_unit_odd_part. Qed.
 Print Assumptions t1_find_smallest_unit_odd_part.
 
+(* ---- O3 over HISTORIES: the Interval object (Model/C12_Interval.v).  The state of a score.Interval is its three
+   public attributes; [step_code] is the machine of the code as it is -- the reads are the definitions regenerated
+   from the source text (T1_music.Interval_semitones / Interval_validate / transpose_note /
+   transpose_note_inplace), change_quality is the method's two ladders, tied to the code by replaying every generated
+   history of operations on a real object through [hist_agrees] (harness/props/c12.py, stream "history").
+   After ANY history of reads, transpositions, change_quality calls and assignments of number / quality /
+   direction, from ANY initial fields: the size read from the object is the table value (major/perfect size +
+   quality offset) of its CURRENT fields, transposing with it is transposing with a freshly constructed interval of
+   those fields, and every operation of the history returned what the fields at that moment define. ---- *)
+From PV Require Import Model.C12_Interval Proofs.C12_interval.
+Theorem interval_history_semitones : forall (f0 : PyInterval) (ops : list iop),
+  let s := final_code ops f0 in
+  read_code s = C12.interval_semitones (i_number s) (i_quality s) /\
+  (forall st al, tn_code s st al = T1_music.transpose_note st al (mk_interval (i_number s) (i_quality s) (i_direction s))) /\
+  (forall x, tr_code s x = T1_music.transpose_note_inplace x (mk_interval (i_number s) (i_quality s) (i_direction s))) /\
+  Forall (fun t : tstep => let '(f, o, ob, f') := t in ob = obs_spec o f /\ f' = fields_spec o f) (trace_code ops f0).
+Proof. exact interval_history_semitones_lemma. Qed.
+Print Assumptions interval_history_semitones.
+
+(* the same as a boolean over the generic runner (any machine: state type, step function, public fields) *)
+Theorem interval_history_ok : forall ops f0, history_ok step_code (fun s => s) ops f0 = true.
+Proof. exact interval_history_ok_lemma. Qed.
+Print Assumptions interval_history_ok.
+
+(* the fields after a history are the fold of the assignments (change_quality: one rung per semitone, or no change) *)
+Theorem interval_history_fields : forall ops f0,
+  final_code ops f0 = fold_left (fun f o => fields_spec o f) ops f0.
+Proof. exact final_code_fields. Qed.
+Print Assumptions interval_history_fields.
+
+(* NOT vacuous: a machine that memoises `semitones` on the object and never invalidates it (not the code) violates
+   the statement -- read, change_quality(-1), read *)
+Theorem interval_history_memo_refuted : exists f0 ops, history_ok step_memo m_iv ops (memo_init f0) = false.
+Proof. exact interval_history_memo_refuted_lemma. Qed.
+Print Assumptions interval_history_memo_refuted.
+
+Example interval_memo_stale :
+  let s := snd (run step_memo m_iv [OpRead; OpCq (-1)] (memo_init (mk_interval 3 "M" "up"))) in
+  m_iv s = mk_interval 3 "m" "up" /\
+  snd (step_memo OpRead s) = ObZ (Some 4) /\
+  obs_spec OpRead (m_iv s) = ObZ (Some 3) /\
+  snd (step_memo (OpTn "C" 0) s) = ObSA (Some ("E"%string, 0)) /\
+  spec_transpose_note "C" 0 (m_iv s) = Some ("E"%string, -1).
+Proof. exact interval_memo_stale_example. Qed.
+Print Assumptions interval_memo_stale.
+
+(* change_quality(k) on an interval class moves its size by exactly k semitones and leaves number and direction *)
+Theorem change_quality_shifts_semitones : forall iv k iv' sem,
+  C12.interval_semitones (i_number iv) (i_quality iv) = Some sem ->
+  change_quality iv k = Some iv' ->
+  i_number iv' = i_number iv /\ i_direction iv' = i_direction iv /\
+  C12.interval_semitones (i_number iv') (i_quality iv') = Some (sem + k).
+Proof. exact change_quality_shifts_lemma. Qed.
+Print Assumptions change_quality_shifts_semitones.
+
+(* a non-trivial history: P5 up, read 7, raised twice (AA5, 9), number := 6 (AA6, 11), lowered by three (m6, 8),
+   direction := down; transpose_note then refuses (only "up" is supported) *)
+Example interval_history_nontrivial :
+  let ops := [OpRead; OpCq 2; OpRead; OpSetN 6; OpRead; OpCq (-3); OpSetD "down"; OpRead; OpTn "C" 0; OpStr] in
+  map (fun t : tstep => snd (fst t)) (trace_code ops (mk_interval 5 "P" "up")) =
+    [ObZ (Some 7); ObU (Some tt); ObZ (Some 9); ObU (Some tt); ObZ (Some 11); ObU (Some tt); ObU (Some tt);
+     ObZ (Some 8); ObSA None; ObS "6m"] /\
+  final_code ops (mk_interval 5 "P" "up") = mk_interval 6 "m" "down".
+Proof. exact interval_history_example. Qed.
+Print Assumptions interval_history_nontrivial.
+
 (* ---- O5 over the reals (depends on the standard library's real-number axioms) ---- *)
 From PV Require Import Proofs.C12_real.
 From Coq Require Import Reals.
